@@ -18,7 +18,7 @@ def all_occ(F: "bytes", N: "bytes", lo: "int", hi: "int") -> "ilist":
     return ([lo] if occ(F, N, lo) else []) + all_occ(F, N, lo + 1, hi)
 
 
-@spec
+@specfn
 def contains(xs: "ilist", v: "int") -> "bool":
     return exists(lambda k: xs[k] == v, 0, len(xs))
 
